@@ -55,7 +55,15 @@ class FuncInfo:
         module anyway, where inlining would only report a helper's sites a second time in each caller."""
         r = getattr(self, "_raw_view", None)
         if r is None:
-            r = FuncInfo(self.module, self.qualname, self.raw_node, self.cls, self.raw_node)
+            node = self.raw_node
+            if not os.environ.get("XSA_NO_INLINE"):
+                from .normalize import local_normalise
+
+                try:
+                    node = local_normalise(self.raw_node)  # purely local canonical form; helpers are not inlined
+                except RecursionError:
+                    node = self.raw_node
+            r = FuncInfo(self.module, self.qualname, self.raw_node, self.cls, node)
             object.__setattr__(self, "_raw_view", r)
         return r
 
